@@ -1,8 +1,146 @@
 package main
 
+import (
+	"context"
+	"encoding/json"
+	"fmt"
+	"os"
+	"os/exec"
+	"path/filepath"
+	"strings"
+	"time"
+)
+
+// ReplayDriver names an in-package Go test (kept under /verif/replay) that
+// runs the real code and prints REPLAY-CONFIRMED when it observes the failure
+// that a refuted obligation predicts.
+type ReplayDriver struct {
+	Match string `json:"match"` // substring of the obligation name
+	Pkg   string `json:"pkg"`   // package directory relative to the repository, e.g. "serf"
+	File  string `json:"file"`  // test file under /verif/replay
+	Test  string `json:"test"`  // test function
+}
+
 // replay tries to confirm a refuted obligation on the real code. It returns
 // the replay file and whether the failure was reproduced.
 func (r *Run) replay(o *Obligation, fr *FuncResult) (string, bool) {
 	path := r.writeReplayFile(o, fr, "obligation refuted by the solver (counter-model attached)")
-	return path, false
+	drv := r.driverFor(o.Name)
+	if drv == nil {
+		return path, false
+	}
+	return r.replayWith(o, fr, path, drv)
+}
+
+// replayWith runs a driver and records its verdict in the replay file.
+func (r *Run) replayWith(o *Obligation, fr *FuncResult, path string, drv *ReplayDriver) (string, bool) {
+	out, confirmed := r.runDriver(drv, parseValues(o))
+	// append the driver's verdict to the replay file
+	rec := map[string]any{}
+	if data, err := os.ReadFile(path); err == nil {
+		json.Unmarshal(data, &rec)
+	}
+	rec["replay_driver"] = drv.File + ":" + drv.Test
+	rec["replay_output"] = truncate(out, 4000)
+	rec["replay_confirmed"] = confirmed
+	data, _ := json.MarshalIndent(rec, "", " ")
+	os.WriteFile(path, data, 0o644)
+	return path, confirmed
+}
+
+func (r *Run) driverFor(name string) *ReplayDriver {
+	if r.Cfg == nil {
+		return nil
+	}
+	for i := range r.Cfg.Drivers {
+		d := &r.Cfg.Drivers[i]
+		if strings.Contains(name, d.Match) {
+			return d
+		}
+	}
+	return nil
+}
+
+// runDriver injects the driver with `go test -overlay` (nothing is written
+// into the repository) and runs it against the tree under verification.
+func (r *Run) runDriver(d *ReplayDriver, model map[string]string) (string, bool) {
+	tmp, err := os.MkdirTemp("/var/tmp", "vc-replay-")
+	if err != nil {
+		return err.Error(), false
+	}
+	defer os.RemoveAll(tmp)
+	ov := map[string]any{"Replace": map[string]string{
+		filepath.Join(r.Repo, d.Pkg, "zz_verif_replay_test.go"): filepath.Join(r.Verif, "replay", d.File),
+	}}
+	ovData, _ := json.Marshal(ov)
+	ovPath := filepath.Join(tmp, "ov.json")
+	os.WriteFile(ovPath, ovData, 0o644)
+	modelData, _ := json.Marshal(model)
+	modelPath := filepath.Join(tmp, "model.json")
+	os.WriteFile(modelPath, modelData, 0o644)
+	ctx, cancel := context.WithTimeout(context.Background(), 150*time.Second)
+	defer cancel()
+	cmd := exec.CommandContext(ctx, "go", "test", "-overlay", ovPath, "-vet=off", "-timeout", "120s", "-count=1", "-v", "-run", "^"+d.Test+"$", "./"+d.Pkg)
+	cmd.Dir = r.Repo
+	cmd.Env = append(os.Environ(), "VERIF_REPLAY_MODEL="+modelPath, "GOFLAGS=-mod=mod", "GOPROXY=off", "GOSUMDB=off", "GOTOOLCHAIN=local")
+	out, _ := cmd.CombinedOutput()
+	s := string(out)
+	var keep []string
+	for _, l := range strings.Split(s, "\n") {
+		if strings.Contains(l, "REPLAY-") || strings.HasPrefix(l, "ok") || strings.HasPrefix(l, "FAIL") || strings.HasPrefix(l, "---") || strings.HasPrefix(l, "panic") {
+			keep = append(keep, l)
+		}
+	}
+	return strings.Join(keep, "\n"), strings.Contains(s, "REPLAY-CONFIRMED")
+}
+
+// cmdReplay re-runs the driver recorded in a replay file.
+func cmdReplay(args []string) int {
+	var verif, prop, file, repo string
+	repo = "/repo"
+	for i := 0; i+1 < len(args); i += 2 {
+		switch args[i] {
+		case "-verif":
+			verif = args[i+1]
+		case "-prop":
+			prop = args[i+1]
+		case "-file":
+			file = args[i+1]
+		case "-repo":
+			repo = args[i+1]
+		}
+	}
+	data, err := os.ReadFile(file)
+	if err != nil {
+		fmt.Fprintln(os.Stderr, err)
+		return 2
+	}
+	var rec map[string]any
+	json.Unmarshal(data, &rec)
+	fmt.Printf("replay file %s\n  property:   %v\n  obligation: %v\n  reason:     %v\n  solver:     %v (%v)\n", file, rec["property"], rec["obligation"], rec["reason"], rec["solver"], rec["solver_status"])
+	var props map[string]*PropCfg
+	if pd, err := os.ReadFile(filepath.Join(verif, "props.json")); err == nil {
+		json.Unmarshal(pd, &props)
+	}
+	run := &Run{Prop: prop, Verif: verif, Repo: repo, Cfg: props[prop]}
+	name, _ := rec["obligation"].(string)
+	drv := run.driverFor(name)
+	if drv == nil {
+		fmt.Println("  no replay driver for this obligation: the violation stands on the failed obligation and the solver output in the file (no-failing-input-found)")
+		return 1
+	}
+	model := map[string]string{}
+	if mv, ok := rec["model_values"].(map[string]any); ok {
+		for k, v := range mv {
+			model[k] = fmt.Sprint(v)
+		}
+	}
+	out, confirmed := run.runDriver(drv, model)
+	fmt.Println(out)
+	if confirmed {
+		fmt.Printf("VIOLATION property=%s replay=%s\n", prop, file)
+		return 1
+	}
+	fmt.Println("not reproduced on this tree")
+	return 0
 }
